@@ -7,6 +7,10 @@
 //   --randprog            with --random: also draw a random program per execution
 //   --spurious            the environment may return spuriously from futex waits
 //   --calibrate           print CEPT=0|1 (does CompletionEventImpl::wait carry its own point?) and exit
+//   --stress ROUNDS --seed S        E5: free-running rounds (real threads, real futex, inert hooks) on
+//                         DistributedRWLockImpl<1|2|4> (explicit reader indices) and on the public
+//                         DistributedRWLock<2> / DistributedRWLock<> (N = 16, slot = threadId());
+//                         one observation record per batch of rounds (see rwlock_stress.h)
 //
 // The shared operations are called with an arbitrary index whose low bits select the slot
 // (index = slot + N * 5), as DistributedRWLock does with threadId().  An operation whose
@@ -15,11 +19,13 @@
 // that leaves the thread holding the lock it passes through a critical section (points CsEnter /
 // CsExit) that maintains the occupancy counters shown in the projection.
 #include <dispenso/detail/distributed_rw_lock_impl.h>
+#include <dispenso/distributed_rw_lock.h>
 
 #include <unistd.h>
 
 #include "../ctl/ctl.h"
 #include "../ctl/drv_common.h"
+#include "rwlock_stress.h"
 
 using ctl::Json;
 
@@ -282,8 +288,149 @@ static int calibrate() {
   return r.steps > 1 ? 1 : 0;
 }
 
+// ------------------------------------------------------------------------------ E5 (free-running)
+struct LockIf {
+  virtual ~LockIf() {}
+  virtual void lock() = 0;
+  virtual bool try_lock() = 0;
+  virtual void unlock() = 0;
+  virtual void lock_shared(size_t i) = 0;
+  virtual bool try_lock_shared(size_t i) = 0;
+  virtual void unlock_shared(size_t i) = 0;
+  virtual int residue() = 0;
+};
+// DistributedRWLockImpl<N>: the reader chooses the index (any thread-to-slot mapping)
+template <size_t N>
+struct ImplLock : LockIf {
+  dispenso::detail::DistributedRWLockImpl<N> lk;
+  void lock() override {
+    lk.lock();
+  }
+  bool try_lock() override {
+    return lk.try_lock();
+  }
+  void unlock() override {
+    lk.unlock();
+  }
+  void lock_shared(size_t i) override {
+    lk.lock_shared(i);
+  }
+  bool try_lock_shared(size_t i) override {
+    return lk.try_lock_shared(i);
+  }
+  void unlock_shared(size_t i) override {
+    lk.unlock_shared(i);
+  }
+  int residue() override {
+    int any = 0;
+    for (size_t i = 0; i < N; ++i)
+      any |= lk.slots_[i].lockWord().load();
+    return any;
+  }
+};
+// the public class: the slot is threadId() % N
+template <size_t N>
+struct PublicLock : LockIf {
+  dispenso::DistributedRWLock<N> lk;
+  void lock() override {
+    lk.lock();
+  }
+  bool try_lock() override {
+    return lk.try_lock();
+  }
+  void unlock() override {
+    lk.unlock();
+  }
+  void lock_shared(size_t) override {
+    lk.lock_shared();
+  }
+  bool try_lock_shared(size_t) override {
+    return lk.try_lock_shared();
+  }
+  void unlock_shared(size_t) override {
+    lk.unlock_shared();
+  }
+  int residue() override {
+    int any = 0;
+    for (size_t i = 0; i < N; ++i)
+      any |= lk.impl_.slots_[i].lockWord().load();
+    return any;
+  }
+};
+
+struct StressLock {
+  static constexpr int kFlavours = 5;
+  int fl;
+  LockIf* p;
+  explicit StressLock(int flavour) : fl(flavour) {
+    switch (fl) {
+      case 0:
+        p = new ImplLock<1>();
+        break;
+      case 1:
+        p = new ImplLock<2>();
+        break;
+      case 2:
+        p = new ImplLock<4>();
+        break;
+      case 3:
+        p = new PublicLock<2>();
+        break;
+      default:
+        p = new PublicLock<16>();
+    }
+  }
+  ~StressLock() {
+    delete p;
+  }
+  const char* name() const {
+    static const char* n[] = {"DistributedRWLockImpl<1>", "DistributedRWLockImpl<2>", "DistributedRWLockImpl<4>",
+                              "DistributedRWLock<2>", "DistributedRWLock<16>"};
+    return n[fl];
+  }
+  int slots() const {
+    static const int n[] = {1, 2, 4, 2, 16};
+    return n[fl];
+  }
+  bool upDown() const {
+    return false; // no lock_upgrade / lock_downgrade in this interface
+  }
+  void lock() {
+    p->lock();
+  }
+  bool try_lock() {
+    return p->try_lock();
+  }
+  void unlock() {
+    p->unlock();
+  }
+  void lock_shared(size_t i) {
+    p->lock_shared(i);
+  }
+  bool try_lock_shared(size_t i) {
+    return p->try_lock_shared(i);
+  }
+  void unlock_shared(size_t i) {
+    p->unlock_shared(i);
+  }
+  void lock_upgrade() {
+    _exit(3);
+  }
+  void lock_downgrade() {
+    _exit(3);
+  }
+  int residue() {
+    return p->residue();
+  }
+};
+
 int main(int argc, char** argv) {
   drv::Args a(argc, argv);
+  if (a.has("stress")) {
+    int rc = stress::run<StressLock>(a);
+    fflush(stdout);
+    _exit(rc);
+  }
   g_cept = calibrate();
   if (a.has("calibrate")) {
     printf("CEPT=%d\n", g_cept);
